@@ -5,6 +5,8 @@ import Driver.BFT
 import Driver.Hash
 import Driver.TxPool
 import Driver.ConnGater
+import Driver.Exec
+import Driver.ReqResp
 
 def main (args : List String) : IO UInt32 := do
   match args with
@@ -15,5 +17,7 @@ def main (args : List String) : IO UInt32 := do
   | ["hash"] => Driver.Hash.main; return 0
   | ["C14"] => Driver.TxPool.main; return 0
   | ["C18"] => Driver.ConnGater.main; return 0
+  | ["C16"] => Driver.Exec.main; return 0
+  | ["C17"] => Driver.ReqResp.main; return 0
   | ["C01"] => Driver.BFT.main; return 0
   | _ => IO.eprintln "usage: ldriver <property-id>"; return 2
